@@ -15,6 +15,8 @@ import (
 
 	"google.golang.org/grpc/codes"
 	iserviceconfig "google.golang.org/grpc/internal/serviceconfig"
+	"google.golang.org/grpc/internal/transport"
+	"google.golang.org/grpc/metadata"
 	"google.golang.org/grpc/status"
 )
 
@@ -86,4 +88,45 @@ func verifH_C19_tokens() {
 	}
 	var nilRT *retryThrottler
 	verifAssert(!nilRT.throttle(), "no throttling configured: never throttled")
+}
+
+// server pushback replaces the backoff by the given delay and restarts the exponent: the retry after a pushback
+// waits [0.8, 1.2] x initial backoff again
+func verifH_C19_pushback() {
+	p := verifPolicies[verifChoice("policy", len(verifPolicies))]
+	k := 1 + verifChoice("retries-before-the-pushback", 3)
+	cs := &clientStream{cc: &ClientConn{}, ctx: context.Background(), methodConfig: &MethodConfig{}}
+	cs.numRetries, cs.numRetriesSincePushback = k, k
+	cs.methodConfig.RetryPolicy = &iserviceconfig.RetryPolicy{MaxAttempts: 10, InitialBackoff: p.initial, MaxBackoff: p.max,
+		BackoffMultiplier: p.mult, RetryableStatusCodes: map[codes.Code]bool{codes.Unavailable: true}}
+	// an attempt that ended with a trailers-only UNAVAILABLE carrying grpc-retry-pushback-ms
+	ts := &transport.ClientStream{}
+	done, hc := make(chan struct{}), make(chan struct{})
+	close(done)
+	close(hc)
+	verifSetField(ts, "done", done)
+	verifSetField(ts, "headerChan", hc)
+	verifSetField(ts, "Stream.ctx", context.Background())
+	verifSetField(ts, "noHeaders", true)
+	verifSetField(ts, "status", status.New(codes.Unavailable, "try later"))
+	ms := int64(verifChoice("pushback-ms", 3)) * 25 // 0, 25 or 50 ms
+	verifSetField(ts, "Stream.trailer", metadata.MD{"grpc-retry-pushback-ms": []string{[...]string{"0", "25", "50"}[ms/25]}})
+	a := &csAttempt{cs: cs, transportStream: ts}
+	t0 := verifNow()
+	transparent, err := a.shouldRetry(status.Error(codes.Unavailable, "x"))
+	verifAssert(!transparent && err == nil, "the policy retries after a pushback")
+	verifAssert(verifNow()-t0 == ms*int64(time.Millisecond), "the retry waits exactly the delay the server asked for")
+	verifAssert(cs.numRetriesSincePushback == 0, "a pushback restarts the backoff exponent")
+	// the next failure, without pushback
+	a2 := &csAttempt{cs: cs}
+	t1 := verifNow()
+	transparent, err = a2.shouldRetry(status.Error(codes.Unavailable, "x"))
+	waited := verifNow() - t1
+	verifAssert(!transparent && err == nil, "the policy retries")
+	base := float64(p.initial)
+	if base > float64(p.max) {
+		base = float64(p.max)
+	}
+	verifAssert(waited >= int64(base*0.8)-1 && waited <= int64(base*1.2)+1, "the retry after a pushback waits [0.8, 1.2] x initial backoff (k = 0)")
+	verifCover("pushback")
 }
